@@ -409,6 +409,23 @@ func (vc *VC) contractWrites(act *Act, st *State, fc *FuncContract, names []stri
 			switch {
 			case it.kind == "region" || it.kind == "everything":
 				tw.setAll("callee " + fc.Key + " modifies " + it.text)
+			case it.otype == nil && it.etype != nil:
+				// *p with p a pointer to E: objects allocated as E, and E-typed runs inside known structs
+				tw.addWhole(vc.tid(it.etype))
+				w := width(it.etype)
+				for id, t := range vc.eng.typeByID {
+					if !vc.eng.wholeObjectType(t) {
+						continue
+					}
+					var offs []int
+					func() {
+						defer func() { recover() }()
+						offsetsOf(t, it.etype, 0, &offs)
+					}()
+					for _, o := range offs {
+						tw.addRange(id, o, o+w)
+					}
+				}
 			case it.otype == nil:
 				tw.setAll("callee " + fc.Key + " modifies " + it.text + " (untyped)")
 			case it.kind == "range" && it.fhi > 0:
@@ -533,9 +550,22 @@ func (vc *VC) loopEffects(act *Act, body map[*ssa.BasicBlock]bool) loopFacts {
 					}
 				case *ssa.Alloc, *ssa.MakeSlice, *ssa.MakeMap, *ssa.MakeChan, *ssa.MakeInterface:
 					lf.allocs = true
-				case *ssa.Go, *ssa.Defer:
+				case *ssa.Go:
 					lf.calls = true
-					lf.typed.setAll("go/defer inside loop")
+					var spawned *ssa.Function
+					if mc, ok := i.Call.Value.(*ssa.MakeClosure); ok {
+						spawned, _ = mc.Fn.(*ssa.Function)
+					} else if f := i.Call.StaticCallee(); f != nil {
+						spawned = f
+					}
+					if spawned != nil && len(spawned.Blocks) > 0 && depth < 4 {
+						scan(spawned, nil, depth+1) // its effects may land at any later point: part of the loop's write set
+					} else {
+						lf.typed.setAll("go statement with unknown body inside loop")
+					}
+				case *ssa.Defer:
+					lf.calls = true
+					lf.typed.setAll("defer inside loop")
 				case *ssa.Send:
 					lf.calls = true
 				case *ssa.Call:
